@@ -284,7 +284,9 @@ func coverCheck(fr *FuncResult, opts SolveOpts, id int) (string, float64) {
 		return "none", 0
 	}
 	// E-matching only: a contradiction among the assumptions shows up as unsat quickly, anything else is fine
-	script := buildScriptX(fr, fr.CoverIdx, fr.Cover, "(set-option :smt.auto_config false)\n(set-option :smt.mbqi false)\n", true)
+	// default solver options: the same search that discharges obligations must not be able to refute the
+	// assumptions (an inconsistent axiom would otherwise make every obligation pass)
+	script := buildScriptX(fr, fr.CoverIdx, fr.Cover, "", true)
 	file := filepath.Join(opts.WorkDir, fmt.Sprintf("cover%d_%d.smt2", os.Getpid(), id))
 	defer os.Remove(file)
 	st, _, el := runSolver(solvers[0], script, file, 3*time.Second, opts.Seed)
